@@ -44,6 +44,9 @@ CHECKS = {
     "C18": ("pairing (must-pass-through) of register/disconnect over all normal exits + who-may-write on the registries (statics resolved) + operation-kind restriction on atomic counters enumerated from MIR + loop-exit path rules for transaction counting",
             "All-sites/all-paths structural decision over the type-checked MIR: the client is registered once; every Ok return of handle after registration passes ClientStats::disconnect and every Err result of handle is disconnected by client_entrypoint; CLIENT_STATS/SERVER_STATS are inserted/removed only by the Reporter's four functions; server stats are registered only in ServerPool::connect, removed on failed startup and in Drop for Server; successful checkouts mark server and client active, failed ones put the client back to idle, waiting precedes the checkout; connected_to_server is cleared only after ServerStats::idle and Drop for Client marks a still-assigned server idle; every atomic mutation in the stats module is classified and totals are touched only by fetch_add/fetch_max; every release after a round trip counts one transaction on client and server and send_and_receive_loop counts one query outside its receive loop.",
             "Equality of totals with server-side counts and unwinding exits are not decided. " + TRUST, "DESIGN.md §4 C18"),
+    "C16": ("ordering (dominance) rules inside wait_paused/resume + who-may-write/notify enumeration + must-pass-through placement of the gate in Client::handle + admin wiring",
+            "All-paths structural decision over the type-checked MIR: wait_paused creates the Notified future on paused_waiter before it loads `paused`, awaits that very future only on the paused==true edge and does not suspend otherwise; resume stores false before Notify::notify_waiters (not notify_one); pause only stores true; `paused` has no other writer and paused_waiter no other notifier; each ConnectionPool is built with its own flag and Notify; every idle-loop iteration of Client::handle that checks out has awaited wait_paused() on its own pool before, with no server I/O earlier; admin PAUSE/RESUME visit every pool (loop over get_all_pools) or the named pool and reply with ReadyForQuery. These are exactly the orderings the documented tokio Notify contract needs for freedom from lost wake-ups.",
+            "Interleavings are not explored; tokio's Notify contract is trusted. " + TRUST, "DESIGN.md §4 C16"),
 }
 
 NOT_APPLICABLE = {}
